@@ -1603,7 +1603,7 @@ def compare_with_model(ctx, runner):
     # definitions, evaluate the groups in parallel
     import concurrent.futures
     order = sorted(range(len(batch)), key=lambda i: (_I[0].order_key(batch[i][0]), i))
-    ngroups = 8
+    ngroups = 4
     size = max(10, -(-len(order) // ngroups))
     groups = [order[i:i + size] for i in range(0, len(order), size)]
 
